@@ -83,7 +83,10 @@ func verifC05(c *drv.Ctx) {
 	env := &zzref.C05Env{Shard: c.Shard, NShard: c.NShard, Mine: c.Mine, Expired: c.Expired, Eval: c.Eval, Nontrivial: c.Nontrivial,
 		Outcome: c.Outcome, Fail: c.Fail, Sample: c.Sample, Add: c.Add}
 	cases := 0
-	ex := vs.Run(nil, nil, func() { cases = zzref.C05Run(env, "c05arp", enumerate) })
+	ex := vs.Run(nil, func(s *vs.Sched) { s.Horizon = 1 << 60 }, func() { cases = zzref.C05Run(env, "c05arp", enumerate) })
+	if !ex.MainDone && len(ex.Crashes) == 0 {
+		c.Infra("enumeration did not run to its end (steps=%d livelock=%v deadlock=%v)", ex.Steps, ex.Livelock, ex.Deadlock)
+	}
 	for _, cr := range ex.Crashes {
 		c.Infra("harness crashed under vs.Run: %s\n%s", cr.Value, cr.Stack)
 	}
